@@ -19,7 +19,7 @@ import specs
 sys.modules.setdefault('main', sys.modules[__name__])
 
 BUILD = kani_run.BUILD
-EVID = os.path.join(VERIF, "evidence")
+EVID = os.environ.get("VERIF_EVIDENCE_DIR", os.path.join(VERIF, "evidence"))
 REPLAYS = os.path.join(EVID, "replays")
 ENV = kani_run.ENV
 
